@@ -234,7 +234,11 @@ fn generate_family(id: &str, run_seed: u64, _thorough: bool) -> Plan {
         "C08" => {
             if pick < 6 {
                 f_bigbatch(run_seed)
-            } else if pick >= 92 {
+            } else if pick >= 96 {
+                // publishes that fail half-way through the fan-out next to a healthy subscription: the
+                // IDs the healthy one sees still increase
+                f_zombie(run_seed)
+            } else if pick >= 90 {
                 // publishes inside a burst that fills the subscription mailbox
                 f_burst_order(run_seed)
             } else if pick < 12 {
@@ -257,8 +261,12 @@ fn generate_family(id: &str, run_seed: u64, _thorough: bool) -> Plan {
                 // publishes that fail half-way (a subscription deleted under a racing create stays
                 // attached): IDs and payloads seen by the healthy subscriptions next to it
                 f_zombie(run_seed)
+            } else if pick >= 80 {
+                // push subscriptions with push-config attributes, OIDC settings, failing endpoints
+                f_push(run_seed, false)
             } else {
-                f_general(run_seed, &GeneralOpts { rich_payloads: true, publisher_faults: false, push: pick < 50, big_batches: false, ..full })
+                // (a third of these with publishers that go away before they are answered)
+                f_general(run_seed, &GeneralOpts { rich_payloads: true, publisher_faults: pick % 3 == 0, push: pick < 50, big_batches: false, ..full })
             }
         }
         "C10" => {
@@ -278,8 +286,12 @@ fn generate_family(id: &str, run_seed: u64, _thorough: bool) -> Plan {
             if pick < 10 {
                 // push subscriptions orphaned by DeleteTopic keep pushing what they hold
                 f_push(run_seed, false)
-            } else if pick < 60 {
+            } else if pick < 56 {
                 f_names(run_seed, pick % 3, pick % 2 == 0)
+            } else if pick < 64 {
+                // the topic deleted under a subscription that has consumers connected, then the
+                // subscription itself: what Get / List say in between and afterwards
+                f_delete(run_seed, false).with_tag("audit_lists")
             } else {
                 f_general(run_seed, &GeneralOpts { stalls: false, ..full }).with_tag("audit_lists")
             }
